@@ -951,50 +951,84 @@ class Interp:
                             % (type(node).__name__, self.fi.qualname,
                                getattr(node, "lineno", 0)))
 
+    def _map_element(self, it, el, node):
+        """Element of map(f, xs) for the representative element of xs."""
+        f = it[2][0]
+        if f[0] == "global" and f[1] in self.m.functions \
+                and self.inline(self.m.functions[f[1]]) \
+                and self.depth < self.max_inline:
+            return self.inline_call(self.m.functions[f[1]], None, (el,), (),
+                                    None, node)
+        t = ("call", f, (el,), ())
+        if not self.is_pure(f):
+            self.path.effects.append(("call", t, node))
+        return t
+
     def comprehension(self, node, env, into=None):
         if isinstance(node, (ast.ListComp, ast.GeneratorExp)) \
-                and len(node.generators) == 1 \
-                and not node.generators[0].is_async \
+                and len(node.generators) >= 1 \
+                and not any(g.is_async for g in node.generators) \
                 and (isinstance(node, ast.ListComp) or into is not None):
             # [f(x) for x in xs if c]  is  r = []; for x in xs: if c:
-            # r.append(f(x))  -- the same events in the same order
-            g = node.generators[0]
+            # r.append(f(x))  -- the same events in the same order (several
+            # `for` clauses nest)
             env2 = dict(env)
-            it = self.eval(g.iter, env2)
-            exact = it[0] in ("tuple", "list") and len(it[1]) <= 4 \
-                and not self.loop_depth
             if into is None:
                 self.fresh_counter += 1
                 res = ("newlist", self.fresh_counter)
-                self.path.builders[self.fresh_counter] = [] if exact else None
+                self.path.builders[self.fresh_counter] = None
             else:
                 res = into
-                if res[0] == "newlist" and not (
-                        exact and self.path.builders.get(res[1])
-                        is not None):
+            first_it = self.eval(node.generators[0].iter, env2)
+            exact = len(node.generators) == 1 and first_it[0] in (
+                "tuple", "list") and len(first_it[1]) <= 4 \
+                and not self.loop_depth
+            if res[0] == "newlist":
+                if exact and (into is None or self.path.builders.get(
+                        res[1]) is not None):
+                    if into is None:
+                        self.path.builders[res[1]] = []
+                else:
                     self.path.builders[res[1]] = None
-            if it[0] in ("tuple", "list") and len(it[1]) <= 4:
-                elems = list(it[1])
-            else:
-                elems = [("elem", it)]
-                self.path.effects.append(("loop-enter", node.lineno, it, node))
-            self.loop_depth += 1
-            try:
-                for el in elems:
-                    self.assign(g.target, el, env2, node)
-                    if all(self.truth(c, env2) for c in g.ifs):
-                        v = self.eval(node.elt, env2)
-                        self.path.effects.append(
-                            ("call", ("call", ("attr", res, "append"), (v,),
-                                      ()), node))
-                        if exact and res[0] == "newlist" and \
-                                self.path.builders.get(res[1]) is not None:
-                            self.path.builders[res[1]] = \
-                                self.path.builders[res[1]] + [v]
-            finally:
-                self.loop_depth -= 1
-            if elems and elems[0][0] == "elem" and elems[0][1] == it:
-                self.path.effects.append(("loop-exit", node.lineno, node))
+
+            def gen(i, env3):
+                if i == len(node.generators):
+                    v = self.eval(node.elt, env3)
+                    self.path.effects.append(
+                        ("call", ("call", ("attr", res, "append"), (v,), ()),
+                         node))
+                    if exact and res[0] == "newlist" and \
+                            self.path.builders.get(res[1]) is not None:
+                        self.path.builders[res[1]] = \
+                            self.path.builders[res[1]] + [v]
+                    return
+                g = node.generators[i]
+                it = first_it if i == 0 else self.eval(g.iter, env3)
+                if it[0] in ("tuple", "list") and len(it[1]) <= 4:
+                    elems = list(it[1])
+                    rep = False
+                elif it[0] == "call" and it[1] == ("global", "builtins.map") \
+                        and len(it[2]) == 2 and not it[3]:
+                    self.path.effects.append(("loop-enter", node.lineno,
+                                              it[2][1], node))
+                    elems = [self._map_element(it, ("elem", it[2][1]), node)]
+                    rep = True
+                else:
+                    elems = [("elem", it)]
+                    self.path.effects.append(("loop-enter", node.lineno, it,
+                                              node))
+                    rep = True
+                self.loop_depth += 1
+                try:
+                    for el in elems:
+                        self.assign(g.target, el, env3, node)
+                        if all(self.truth(c, env3) for c in g.ifs):
+                            gen(i + 1, env3)
+                finally:
+                    self.loop_depth -= 1
+                if rep:
+                    self.path.effects.append(("loop-exit", node.lineno, node))
+            gen(0, env2)
             return res
         env2 = dict(env)
         gens = []
@@ -1194,6 +1228,16 @@ class Interp:
                     keys = [const(x) for x in t]
             if keys is not None:
                 return ("dict", tuple((k, args[1]) for k in keys))
+        if ft[0] == "attr" and ft[2] == "setdefault" and len(args) == 2 \
+                and not kws:
+            # d.setdefault(k, v): d[k] when k is in d, else store v and
+            # give v back
+            if self.decide(("contains", args[0], ft[1])):
+                return mk_index(ft[1], args[0])
+            self.path.effects.append(("item-store", ft[1], args[0], args[1],
+                                      node))
+            self._forward(("index", ft[1], args[0]), args[1])
+            return args[1]
         if ft[0] == "attr" and ft[2] == "get" and len(args) == 1 and not kws \
                 and ft[1][0] not in ("const",):
             # d.get(k): the value d[k], or None when k is not in d
